@@ -29,20 +29,22 @@ func (e *exec) symFields(id int) map[int]string {
 
 // Adaptive generator: the next step is chosen knowing which instances exist in the REAL interpreter
 // (the recorded history is what gets replayed / given to the model; nothing else is fed back).
-//   clean: only symbol keys, every struct declared before it is decoded, no write to an instance after it took part in a derefSet copy
-//   dirty: everything (non-symbol keys, decode before declaration)
-//   alias: writes after a derefSet copy (CloneFrom shares the bucket arrays)
+//
+//	clean: only symbol keys, every struct declared before it is decoded, no write to an instance after it took part in a derefSet copy
+//	dirty: everything (non-symbol keys, decode before declaration)
+//	alias: writes after a derefSet copy (CloneFrom shares the bucket arrays)
 type gen struct {
-	r      *lib.Rng
-	mode   string
-	e      *exec
-	h      []*op
-	nextID int
-	ns     int
-	nf     int
-	tg     map[string]bool
-	okC    bool
-	okW    bool
+	r       *lib.Rng
+	mode    string
+	e       *exec
+	h       []*op
+	nextID  int
+	nextPid int
+	ns      int
+	nf      int
+	tg      map[string]bool
+	okC     bool
+	okW     bool
 }
 
 func newGen(r *lib.Rng, mode string) *gen {
@@ -262,6 +264,16 @@ func (g *gen) valueFor(decl []fdecl, f int, recovered bool, limit int) *value {
 	}
 }
 
+// no field of the instance refers to another instance (copying it anywhere cannot close a cycle)
+func (g *gen) noRefs(id int) bool {
+	for _, v := range g.e.symFields(id) {
+		if strings.Contains(v, "@") {
+			return false
+		}
+	}
+	return true
+}
+
 func (g *gen) fieldIdx() int {
 	if g.r.Intn(8) == 0 {
 		return g.nf + g.r.Intn(2) // never declared
@@ -360,14 +372,18 @@ func (g *gen) pick() *op {
 				continue
 			}
 			o := &op{kind: 'W', id: id}
-			o.route = "hhdxlj"[g.r.Intn(6)]
-			if o.route == 'j' {
-				if g.mode != "dirty" {
-					o.route = 'x'
+			o.route = "hhdxljkq"[g.r.Intn(8)]
+			if o.route == 'j' || o.route == 'k' || o.route == 'q' {
+				if g.mode != "dirty" || g.r.Intn(2) == 0 {
+					// index-style write with a symbol key: the key arrives wrapped in a one-element array
+					o.k = key{'f', g.fieldIdx()}
+					o.v = g.valueFor(g.e.instDecl[id], o.k.n, true, id)
+					g.tg["route:"+string(o.route)+"-sym"] = true
+					return o
 				} else {
 					o.k = key{"is"[g.r.Intn(2)], g.r.Intn(4)}
 					o.v = g.valueFor(nil, 0, false, id)
-					g.tg["route:j"] = true
+					g.tg["route:"+string(o.route)] = true
 					return o
 				}
 			}
@@ -413,7 +429,42 @@ func (g *gen) pick() *op {
 			}
 			g.tg["op:hdel"] = true
 			return &op{kind: 'X', id: id, k: g.keyAny()}
-		case c < 88:
+		case c < 84:
+			id, ok := g.anyInst()
+			if !ok {
+				continue
+			}
+			g.tg["op:takeptr"] = true
+			o := &op{kind: 'P', pid: g.nextPid, id: id}
+			g.nextPid++
+			return o
+		case c < 87:
+			// derefSet through a pointer made earlier (possibly before a redeclaration)
+			if len(g.e.ptrTarget) == 0 {
+				continue
+			}
+			pids := []int{}
+			for p := range g.e.ptrTarget {
+				pids = append(pids, p)
+			}
+			sortInts(pids)
+			pid := pids[g.r.Intn(len(pids))]
+			tgt := g.e.ptrTarget[pid]
+			if g.mode != "alias" && g.e.aliased[tgt] {
+				continue
+			}
+			o := &op{kind: 'S', pid: pid}
+			if j, ok := g.instOf(g.e.instT[tgt]); ok && g.r.Intn(5) > 0 && (j <= tgt || g.noRefs(j)) && (g.mode == "alias" || !g.e.aliased[j]) {
+				o.v = &value{kind: '@', n: j}
+			} else {
+				o.v = g.valueFor(nil, 0, true, tgt+1)
+				if o.v.kind == '@' && g.mode != "alias" && g.e.aliased[o.v.n] {
+					continue
+				}
+			}
+			g.tg["route:derefSet-ptr"] = true
+			return o
+		case c < 90:
 			id, ok := g.writable()
 			if !ok {
 				continue
@@ -531,6 +582,15 @@ func fixedScenarios() []string {
 		"D 0 1 f0 b0 ; C 0 0 1 f0 I1 ; C 1 0 1 f0 I2 ; R 0 @1 ; R 0 I3 ; D 1 1 f0 b0 ; C 2 1 1 f0 I1 ; R 0 @2",
 		// self reference: the direct struct-typed field is the place-holder type, the pointer works by name
 		"D 0 2 f0 s0 f1 P s0 ; C 0 0 0 ; W h 0 f0 @0 ; W h 0 f1 &0 ; W h 0 f0 N",
+		// index-style writes (the key arrives as a one-element array): right, wrong type, undeclared, through every spelling
+		"D 0 2 f0 b0 f1 L b2 ; C 0 0 1 f0 I1 ; W j 0 f0 I2 ; W j 0 f0 S1 ; W j 0 f3 I1 ; W j 0 f1 A1 I1 ; W j 0 f1 A1 S1",
+		"D 0 2 f0 b0 f1 L b2 ; C 0 0 1 f0 I1 ; W k 0 f0 I2 ; W k 0 f0 S1 ; W k 0 f3 I1 ; W k 0 f1 A1 I1 ; W k 0 f1 A0",
+		"D 0 2 f0 b0 f1 L b2 ; C 0 0 1 f0 I1 ; W q 0 f0 I2 ; W q 0 f0 S1 ; W q 0 f3 I1 ; W q 0 f1 A1 I1 ; W q 0 f0 N",
+		"D 0 1 f0 b0 ; C 0 0 0 ; W q 0 f0 S1 ; W k 0 f2 I1 ; W j 0 f0 F1",
+		// derefSet through a pointer taken BEFORE a redeclaration: the pointed-to type is the old object -> error;
+		// through a pointer taken after it the by-name type lookup accepts (listed finding)
+		"D 0 1 f0 b0 ; C 0 0 1 f0 I1 ; P 0 0 ; D 0 1 f1 b2 ; C 1 0 1 f1 S1 ; S 0 @1 ; S 0 @0 ; P 1 0 ; S 1 @1",
+		"D 0 1 f0 b0 ; C 0 0 1 f0 I1 ; C 1 0 1 f0 I2 ; P 0 1 ; S 0 @0 ; S 0 I3 ; D 1 1 f0 b0 ; C 2 1 1 f0 I1 ; S 0 @2",
 		// the listed findings, one scenario each
 		"D 0 1 f0 b0 ; C 0 0 1 f0 I1 ; W h 0 i5 I6 ; W h 0 s0 S1 ; W j 0 s1 I1 ; W j 0 i5 S2 ; C 1 0 1 i5 I6",
 		"D 0 1 f0 b0 ; C 0 0 1 f0 I1 ; D 0 1 f0 b2 ; D 1 1 f0 s0 ; C 1 1 1 f0 @0 ; C 2 0 1 f0 S1 ; R 2 @0 ; W h 1 f0 @0",
